@@ -13,7 +13,9 @@ use serde_json::{json, Value};
 use std::collections::HashMap;
 use std::net::SocketAddrV4;
 
-pub fn timeline(b: u64, servers: usize, hours: u64, churn: u64, seed: u64, out: &mut Out) -> u64 {
+/// `blackout`: half way through, every server except one crashes at the same instant (all the peers the survivors know go
+/// silent together); the ordinary churn (crashes of single peers, restarts, lookups) goes on around it.
+pub fn timeline(b: u64, servers: usize, hours: u64, churn: u64, seed: u64, out: &mut Out, blackout: bool) -> u64 {
     let spec = NetSpec { servers, clients: 1, plan: "private".into(), join: "sequential".into(), dead_bootstrap: 0, seed };
     let mut net = build(&spec);
     let mut rng = Rng::new(seed ^ 0x14);
@@ -56,6 +58,9 @@ pub fn timeline(b: u64, servers: usize, hours: u64, churn: u64, seed: u64, out: 
         if rng.chance(1, 6) {
             evs.push((target_ns - 1 * MS, 0));
         }
+        if blackout && k == boundaries / 2 {
+            evs.push((net.sim.now_ns() + 100_000 * MS, 9));
+        }
         evs.sort();
         for (t, what) in evs {
             let now = net.sim.now_ns();
@@ -64,6 +69,22 @@ pub fn timeline(b: u64, servers: usize, hours: u64, churn: u64, seed: u64, out: 
             }
             let alive: Vec<usize> = (1..net.sim.nodes.len()).filter(|&n| net.sim.nodes[n].alive && net.servers.contains(&n)).collect();
             match what {
+                9 => {
+                    // everybody but the most recently started live server goes down (the adaptive client too: by now it is a
+                    // server like the others), so every peer the survivor knows is silent
+                    let live: Vec<usize> = (0..net.sim.nodes.len()).filter(|&n| net.sim.nodes[n].alive).collect();
+                    let keep = live.iter().cloned().filter(|n| net.servers.contains(n)).last();
+                    if let Some(keep) = keep {
+                        for p in live {
+                            if p != keep {
+                                net.sim.crash(p);
+                                crashes += 1;
+                                out.line(&json!({"e":"crash","p":p,"t":(net.sim.now_ns() - start) / MS}));
+                                lines += 1;
+                            }
+                        }
+                    }
+                }
                 0 if alive.len() > 2 => {
                     let p = *rng.pick(&alive);
                     net.sim.crash(p);
@@ -77,7 +98,13 @@ pub fn timeline(b: u64, servers: usize, hours: u64, churn: u64, seed: u64, out: 
                     if let Some(&old) = dead.first() {
                         let addr = net.sim.nodes[old].addr;
                         if addr_inc.get(&addr) == Some(&old) {
-                            let n = net.sim.add_node(NodeOpts::server(*addr.ip(), &net.boot));
+                            // the restarted server is given the usual bootstrap address plus that of a server that is up right now
+                            // (after a blackout the usual one is down)
+                            let mut boot = net.boot.clone();
+                            if let Some(&up) = alive.last() {
+                                boot.push(net.sim.nodes[up].addr.to_string());
+                            }
+                            let n = net.sim.add_node(NodeOpts::server(*addr.ip(), &boot));
                             net.servers.push(n);
                             addr_inc.insert(addr, n);
                             refresh_ids(&mut net, &mut id_of, &mut own_id);
@@ -233,12 +260,20 @@ pub fn run(args: &Args) -> i32 {
     } else {
         vec![(5, 1, 0), (6, 2, 1), (8, 1, 2), (12, 1, 1), (20, 1, 0), (7, 2, 2), (35, 1, 0), (45, 1, 1)]
     };
+    // blackouts: all known peers go silent at once (the 2-node network: the other node; larger ones: everybody but one)
+    let blackouts: Vec<(usize, u64, u64)> = if thorough { vec![(2, 2, 0), (3, 2, 1), (5, 3, 0), (9, 2, 1), (14, 2, 2), (20, 2, 0), (30, 2, 1)] } else { vec![(2, 2, 0), (4, 2, 1), (9, 2, 0)] };
     let only = args.get("only").and_then(|x| x.parse::<u64>().ok());
     let mut lines = 0;
     let mut b = 0u64;
     for (servers, hours, churn) in plans {
         if only.is_none() || only == Some(b) {
-            lines += timeline(b, servers, hours, churn, seed ^ (b * 104729), &mut out);
+            lines += timeline(b, servers, hours, churn, seed ^ (b * 104729), &mut out, false);
+        }
+        b += 1;
+    }
+    for (servers, hours, churn) in blackouts {
+        if only.is_none() || only == Some(b) {
+            lines += timeline(b, servers, hours, churn, seed ^ (b * 104729), &mut out, true);
         }
         b += 1;
     }
